@@ -394,11 +394,13 @@ class TrRaw(Tr):
         self.loop = carried
         body = self.block(st.body, env_b, lambda e2, i2: "  " * i2 + self.cont_text(e2) + "\n", ind + 2)
         self.loop = saved
-        has_ret = any(isinstance(z, (ast.Return, ast.Raise)) for z in ast.walk(st))
+        has_ret = any(isinstance(z, (ast.Return, ast.Raise)) or (getattr(self, "assert_exits", False) and isinstance(z, ast.Assert))
+                      for z in ast.walk(st))
         after = self.block(rest, env, k, ind + 1)
         beta = self.w.lean_ret(self.fn) if has_ret else "Empty"
         out = f"{pad}match PyRt.forEach (β := {beta}) {it} {sigma} (fun {pat} {self.tuple_pat(carried)} =>\n{body}{pad}  ) with\n"
-        out += f"{pad}| .ret v => v\n" if has_ret else f"{pad}| .ret v => nomatch v\n"
+        out += (f"{pad}| .ret v => .ret v\n" if saved is not None else f"{pad}| .ret v => v\n") if has_ret \
+            else f"{pad}| .ret v => nomatch v\n"
         out += f"{pad}| .next {self.tuple_pat(carried)} =>\n{after}"
         return out
 
